@@ -66,6 +66,21 @@ def run(ctx):
               "exactly the message types DISCOVER(1) and REQUEST(3) may be dispatched to handlers; the switch handles %s" % vals)
     arm_callee = {}
     state_calls = [(b2, t2) for b2, t2 in disp.calls() if callee_name(t2) in reach_writer]
+    # a handler chosen as a function pointer: the choice (`handle_x as fn(..)`) is the dispatch, the call through the pointer comes
+    # later.  The choice stands for the call, provided the dispatcher calls through pointers it made itself and nothing else.
+    reified = [(b2, t2) for f_ in reach_writer for cb, b2, t2 in cg.callers(f_) if cb.id == disp.id and t2.get("k") == "reify"]
+    indirect = [(b2, t2) for b2, t2 in disp.calls() if callee_name(t2) is None and t2["callee"].get("ptr") is not None]
+    if reified and indirect:
+        made = {callee_name(t2) for _, t2 in reified}
+        okp = True
+        for b2, t2 in indirect:
+            pt = norm(T.operand(t2["callee"]["ptr"], b2, len(disp.blocks[b2]["stmts"])))
+            fns = {x[1][1] for x in subterms(pt) if x[0] == "const" and isinstance(x[1], tuple) and x[1] and x[1][0] == "fn"}
+            okp = okp and bool(fns) and fns <= made
+        ctx.check(okp, "R1", "indirect-calls-go-through-the-dispatcher's-own-choices", ctx.where(disp),
+                  "every call through a function pointer in the dispatcher must resolve to a handler it reified itself")
+        if okp:
+            state_calls += reified
     for b2, t2 in state_calls:
         doms = [v for v, tgt in tm["targets"] if cfg.edge_dominates((bb, tgt), b2)]
         ctx.check(len(doms) == 1, "R1", "state-changing-call-under-one-type-arm:%s" % callee_name(t2).split("::")[-1],
@@ -84,6 +99,7 @@ def run(ctx):
     for e in bad_edges:
         r = cfg.reachable_from(e[1])
         hit = [callee_name(t2).split("::")[-1] for b2, t2 in state_calls if b2 in r]
+        hit += ["(call through a function pointer)" for b2, t2 in (indirect if reified else []) if b2 in r]
         errs = [b2 for b2, i2, s2 in disp.stmts() if s2["p"] == (0,) and "rv" in s2 and s2["rv"]["k"] == "agg" and s2["rv"].get("variant") == "Err" and b2 in r]
         oks = [b2 for b2, i2, s2 in disp.stmts() if s2["p"] == (0,) and "rv" in s2 and s2["rv"]["k"] == "agg" and s2["rv"].get("variant") == "Ok" and b2 in r]
         ctx.check(not hit and errs and not oks, "R1", "other-types-yield-err-and-no-state-change:edge%d" % bad_edges.index(e), ctx.where(disp),
